@@ -1454,10 +1454,8 @@ func ReleaseScenarios(thorough bool) []runner.Scenario {
 	if thorough {
 		steps, e, sh = 6, 5, 16
 	}
-	p := 2
-	if thorough {
-		p = 3
-	}
+	p := 2 // the transport-level races stay at two deviations in both tiers: at three, one scenario alone
+	// (replacement vs attach) needs more than the whole tier's time budget
 	out := []runner.Scenario{
 		{Name: fmt.Sprintf("transport-release-steps%d", steps), Body: ReleaseBody(steps), P: 0, E: e, Shards: sh, Horizon: 400000, NoFine: true},
 	}
